@@ -441,8 +441,12 @@ class Pass1(CompilePass):
                 node=node)
 
     def process_var_clause_pre(self, node):
-        if not isinstance(node.parent,
-                          (DimStmt, TypeBlock, SubBlock, FunctionBlock)):
+        is_param = (
+            isinstance(node.parent, (SubBlock, FunctionBlock)) and
+            any(node is param for param in node.parent.params)
+        )
+        if not is_param and \
+           not isinstance(node.parent, (DimStmt, TypeBlock)):
             # "name AS type" is only a statement inside a TYPE block
             raise CompileError(
                 EC.ILLEGAL_IN_TYPE_BLOCK,
@@ -1107,6 +1111,12 @@ class Pass3(CompilePass):
         self._check_numeric(node.cond, 'DO/LOOP condition')
 
     def process_for_block_pre(self, node):
+        if not isinstance(node.var, Lvalue):
+            # the name of a CONST (replaced by its value in pass 2)
+            raise CompileError(
+                EC.DUPLICATE_DEFINITION,
+                'FOR variable is a constant',
+                node=node.var)
         self._check_numeric(node.from_expr, 'FOR start value')
         self._check_numeric(node.to_expr, 'FOR end value')
         self._check_numeric(node.step_expr, 'FOR step value')
